@@ -52,7 +52,7 @@ class C02(Check):
             'stateful operators incl. scan family, first, last, take, distinct, distinct_until_changed, lag, pad_start/pad_end, start_with, batch, assert_1, tee_map zip/combine_latest/'
             'merge, nested group_by/roll/split/time_split -, optionally under an outer group_by with 2-3 interleaved keys; input 0..40 ints, long enough to wrap the roll slot ring '
             'several times). 30% of the cases are built around the history the property names: a tee branch silent in one lifetime and active in the next. '
-            'non-trivial = some key slot served >= 2 lifetimes with items; distinct = hash of the case')
+            'Every 120th case runs at scale: windows of 257-400 items, 300 groups, take/batch/lag 257+ on 700-1300 items. non-trivial = some key slot served >= 2 lifetimes with items; distinct = hash of the case')
     ASSUMPTIONS = ['all parameters of a context are fixed at generation time, so the replayed pipeline is the same program',
                    'replay uses the same multiplexed code path (with_memory_store on the lifetime\'s items): multiplexed-only operators have no plain form',
                    'values are snapshotted when they pass the taps']
@@ -60,15 +60,28 @@ class C02(Check):
                'rxsci/operators/take.py', 'rxsci/operators/distinct.py', 'rxsci/data/lag.py', 'rxsci/data/pad.py', 'rxsci/operators/start_with.py',
                'rxsci/operators/assert_.py', 'rxsci/data/roll.py', 'rxsci/data/split.py', 'rxsci/data/time_split.py', 'rxsci/operators/group_by.py']
     REQUIRED_TAGS = ['roll', 'split', 'time_split', 'group_by', 'outer-group', 'tee_map', 'scan', 'distinct', 'lag', 'first', 'last', 'take',
-                     'pad_start', 'pad_end', 'start_with', 'batch', 'assert_1', 'duc', 'slot-reused']
+                     'pad_start', 'pad_end', 'start_with', 'batch', 'assert_1', 'duc', 'slot-reused', 'scale']
     REQUIRED_OBSERVED = ['lifetimes_replayed', 'metamorphic_pairs_compared']
 
     def generate(self, rng, tier, shard, nshards):
         n = 2200 if tier == 'quick' else 10 ** 7
         for k in range(n):
-            opts = gen.GenOpts(max_depth=rng.choice([0, 1, 1, 2]), allow_progress=False, allow_empty_sensitive=True,
-                               exclude_ops=('assert_',), ctx_weight=2, tee_weight=3)
+            scale = (k % 120 == 60)
+            opts = gen.GenOpts(max_depth=rng.choice([0, 1, 1, 2]) if not scale else 0, allow_progress=False, allow_empty_sensitive=True,
+                               exclude_ops=('assert_',) if not scale else ('assert_', 'fvariance', 'fstddev'), ctx_weight=2, tee_weight=3, scale=scale)
             ctx = gen_ctx(rng, opts)
+            if scale:
+                # sizes beyond the small-int cache: windows of 257-400 items, 300 groups, inner take/batch/lag 257+
+                inner, _ = gen.gen_pipeline(rng, 'i', rng.randint(1, 2), opts, None, 0)
+                ctx = rng.choice([['roll', 300, 100, inner], ['roll', 257, 256, inner], ['roll', 400, 399, inner], ['roll', 300, 300, inner],
+                                  ['group_by', 'mod:300', inner], ['split', 'div:300', inner]])
+                if (k // 120) % 3 == 2:
+                    # 140-300 groups alive and interleaved around a join whose branches emit at different rates
+                    tee = ['tee_map', rng.choice(['zip', 'combine_latest']), [[['filter', 'modne:%d:0' % rng.randint(2, 3)]], [['map', 'add:1']]]]
+                    ctx = ['group_by', rng.choice(['mod:140', 'mod:300']), [tee, ['map', 'digest']]]
+                yield {'ctx': ctx, 'outer': False, 'seqs': [[rng.randint(0, 900) for _ in range(rng.choice([700, 1300]))]],
+                       'shapes': ['blocks', 'blocks'], 'iseed': rng.randrange(1 << 30)}
+                continue
             outer = rng.random() < 0.5
             ng = rng.randint(2, 3) if outer else 1
             seqs = []
@@ -135,6 +148,8 @@ class C02(Check):
         out.tags += [ctx[0]] + sorted(set(names))
         if case['outer']:
             out.tags.append('outer-group')
+        if any(len(x) >= 300 for x in case['seqs']):
+            out.tags.append('scale')
         snap, head, tail = self._run(case, case['shapes'][0], 0)
         pairs = self._pairs(head, tail, out) if snap.err is None else None
         if snap.err is not None or not snap.done:
